@@ -19,10 +19,10 @@ theorem round53_nearest_even (m : Nat) (e : Int) :
     ∃ k q : Nat, round53 m e = (q, e + (k : Int))
       ∧ 2 * m ≤ 2 * (q * 2 ^ k) + 2 ^ k ∧ 2 * (q * 2 ^ k) ≤ 2 * m + 2 ^ k
       ∧ ((2 * m = 2 * (q * 2 ^ k) + 2 ^ k ∨ 2 * (q * 2 ^ k) = 2 * m + 2 ^ k) → k ≠ 0 → q % 2 = 0)
-      ∧ q ≤ 2 ^ 53 ∧ ((k = 0 ∧ q = m) ∨ 2 ^ 52 ≤ q) := by
+      ∧ q ≤ 2 ^ 53 ∧ ((k = 0 ∧ q = m) ∨ 2 ^ 52 ≤ q) ∧ k = bitLen m - 53 := by
   unfold round53
   by_cases hl : bitLen m ≤ 53
-  · refine ⟨0, m, ?_, by omega, by omega, ?_, ?_, Or.inl ⟨rfl, rfl⟩⟩
+  · refine ⟨0, m, ?_, by omega, by omega, ?_, ?_, Or.inl ⟨rfl, rfl⟩, by omega⟩
     · simp [hl]
     · intro _ h; exact absurd rfl h
     · by_cases hm : m = 0
@@ -58,7 +58,7 @@ theorem round53_nearest_even (m : Nat) (e : Int) :
     generalize hPP : 2 ^ k = P at *
     have ht : P * q0 + r = m := hdm
     by_cases hup : r > half ∨ (r = half ∧ q0 % 2 = 1)
-    · refine ⟨k, q0 + 1, ?_, ?_, ?_, ?_, by omega, Or.inr (by omega)⟩
+    · refine ⟨k, q0 + 1, ?_, ?_, ?_, ?_, by omega, Or.inr (by omega), rfl⟩
       · simp only [hk, hPP, hH, hrr, hq0, hup, if_true]
       · rw [hPP]; have : (q0 + 1) * P = P * q0 + P := by rw [Nat.add_mul, Nat.mul_comm]; omega
         omega
@@ -70,7 +70,7 @@ theorem round53_nearest_even (m : Nat) (e : Int) :
         rcases hup with h | ⟨h1, h2⟩
         · omega
         · omega
-    · refine ⟨k, q0, ?_, ?_, ?_, ?_, by omega, Or.inr hq_lo⟩
+    · refine ⟨k, q0, ?_, ?_, ?_, ?_, by omega, Or.inr hq_lo, rfl⟩
       · simp only [hk, hPP, hH, hrr, hq0, hup, if_false]
       · rw [hPP, Nat.mul_comm q0 P]; omega
       · rw [hPP, Nat.mul_comm q0 P]; omega
@@ -80,5 +80,48 @@ theorem round53_nearest_even (m : Nat) (e : Int) :
         have hrh : r = half := by omega
         have := Nat.mod_two_eq_zero_or_one q0
         omega
+
+/-- a number with at most 53 significant bits is not changed by the rounding -/
+theorem round53_exact (m : Nat) (e : Int) (j : Nat) (hj : m % 2 ^ j = 0) (hc : m / 2 ^ j < 2 ^ 53) :
+    ∃ k q : Nat, round53 m e = (q, e + (k : Int)) ∧ q * 2 ^ k = m := by
+  obtain ⟨k, q, h, h1, h2, _, _, h5, hk⟩ := round53_nearest_even m e
+  refine ⟨k, q, h, ?_⟩
+  rcases h5 with ⟨h0, hq⟩ | _
+  · subst h0; simp [hq]
+  · by_cases hm : m = 0
+    · subst hm
+      have : 2 * (q * 2 ^ k) ≤ 2 ^ k := by omega
+      have hp : 0 < 2 ^ k := Nat.pow_pos (by omega)
+      have : q * 2 ^ k = 0 := by
+        rcases Nat.eq_zero_or_pos q with h | h
+        · simp [h]
+        · have : 2 ^ k ≤ q * 2 ^ k := Nat.le_mul_of_pos_left _ h
+          omega
+      exact this
+    · -- k ≤ j, so 2^k divides m
+      have hlt : m < 2 ^ (53 + j) := by
+        rw [Nat.pow_add]
+        exact (Nat.div_lt_iff_lt_mul (Nat.pow_pos (by omega))).mp hc
+      have hbl : bitLen m ≤ 53 + j := by
+        have := (bitLen_bounds m hm).1
+        have h2lt : 2 ^ (bitLen m - 1) < 2 ^ (53 + j) := Nat.lt_of_le_of_lt this hlt
+        have := (Nat.pow_lt_pow_iff_right (by omega : 1 < 2)).mp h2lt
+        omega
+      have hkj : k ≤ j := by omega
+      have hdvd : 2 ^ k ∣ m := by
+        have h1 : 2 ^ k ∣ 2 ^ j := Nat.pow_dvd_pow 2 hkj
+        exact Nat.dvd_trans h1 (Nat.dvd_of_mod_eq_zero hj)
+      obtain ⟨a, ha⟩ := hdvd
+      have hp : 0 < 2 ^ k := Nat.pow_pos (by omega)
+      rw [ha] at h1 h2 ⊢
+      rw [Nat.mul_comm (2 ^ k) a] at h1 h2 ⊢
+      have e1 : (2 * a) * 2 ^ k ≤ (2 * q + 1) * 2 ^ k := by
+        rw [Nat.add_mul, Nat.mul_assoc, Nat.mul_assoc]; omega
+      have e2 : (2 * q) * 2 ^ k ≤ (2 * a + 1) * 2 ^ k := by
+        rw [Nat.add_mul, Nat.mul_assoc, Nat.mul_assoc]; omega
+      have f1 := Nat.le_of_mul_le_mul_right e1 hp
+      have f2 := Nat.le_of_mul_le_mul_right e2 hp
+      have : a = q := by omega
+      rw [this]
 
 end Dlt
